@@ -223,6 +223,7 @@ pub struct St {
     pub multi_page_freelist_commits: u64,
     pub directed: u64,
     pub golden_based: u64,
+    pub direct_workloads: u64,
     pub distinct: std::collections::BTreeSet<u64>,
     pub shapes: std::collections::BTreeSet<String>,
 }
@@ -604,7 +605,7 @@ pub fn run(ctx: &Ctx) -> Shard {
     let t_start = std::time::Instant::now();
     let budget_s: u64 = ctx.get("budget_s").and_then(|s| s.parse().ok()).unwrap_or(if ctx.thorough() { 420 } else { 90 });
     let mut skipped = 0u64;
-    for wl in &workloads {
+    for (wi, wl) in workloads.iter().enumerate() {
         if t_start.elapsed().as_secs() > budget_s && ctx.replay.is_none() {
             skipped += 1;
             continue;
@@ -644,6 +645,13 @@ pub fn run(ctx: &Ctx) -> Shard {
                 }
             }
         }
+        // a quarter of the random workloads are recorded with direct_writes(true): the order of writes and
+        // syncs must be the same (an "O_DIRECT data is on disk when write returns" shortcut would drop a sync)
+        let direct = wl.base.is_none() && h.origin != "directed" && wi % 4 == 1;
+        exec::set_direct_writes(direct);
+        if direct {
+            st.direct_workloads += 1;
+        }
         let rec = util::catch(|| -> Result<(), String> {
             let mut db = exec::open_db(&path, h).map_err(|e| e.to_string())?;
             for (k, t) in h.txs.iter().enumerate() {
@@ -663,6 +671,7 @@ pub fn run(ctx: &Ctx) -> Shard {
             Ok(())
         });
         vio.set_log(None);
+        exec::set_direct_writes(false);
         let _ = std::fs::remove_file(&path);
         shard.evaluations += 1;
         match rec {
@@ -713,6 +722,7 @@ pub fn run(ctx: &Ctx) -> Shard {
     shard.count("max_pending_writes_at_a_sync", 0);
     shard.count("max_pending", st.max_pending);
     shard.count("directed_workloads", st.directed);
+    shard.count("workloads_recorded_with_direct_writes", st.direct_workloads);
     shard.count("workloads_on_files_written_by_the_pinned_release", st.golden_based);
     shard.count("commits_that_extended_the_file", st.growth_commits);
     shard.count("commits_with_a_multi_page_free_list", st.multi_page_freelist_commits);
